@@ -498,6 +498,126 @@ def _shard(seed, shard, n_bases):
     return viols, obs
 
 
+def function_templates():
+    """Enumerated (expression template x site x call style): expressions in which one operand occurs several times
+    (range tests with strict / inclusive bounds in either order, products and differences of a value with itself,
+    null tests combined with comparisons, case, in) written out in a filter / a derive / a filter after an
+    aggregation, against the same expression abstracted into a user function whose parameter occurs several times.
+    -> [(label, base program)]; the rewritten side is made by rw_function."""
+    A, C = ["col", None, "a"], ["col", None, "c"]
+    L = lambda v: ["lit", v]
+    B = lambda op, x, y: ["bin", op, x, y]
+    def rng_test(lo_op, hi_op, x=A, lo=1, hi=4, lo_first=True, conj="&&"):
+        l, h = B(lo_op, x, L(lo)), B(hi_op, x, L(hi))
+        return B(conj, l, h) if lo_first else B(conj, h, l)
+    T = {}
+    for lo_op in (">", ">="):
+        for hi_op in ("<", "<="):
+            T["range%s%s" % (lo_op, hi_op)] = rng_test(lo_op, hi_op)
+            T["range_hi_first%s%s" % (lo_op, hi_op)] = rng_test(lo_op, hi_op, lo_first=False)
+    T["range_point"] = rng_test(">=", "<=", lo=2, hi=2)
+    T["range_empty"] = rng_test(">", "<", lo=2, hi=3)
+    T["range_outside"] = B("||", B("<", A, L(2)), B(">", A, L(4)))
+    T["range_on_sum"] = rng_test(">", "<", x=B("+", A, L(1)), lo=2, hi=5)
+    T["range_col_bounds"] = B("&&", B(">", A, C), B("<", A, B("+", C, L(6))))
+    T["range_mixed_ops"] = B("&&", B(">", A, L(1)), B("!=", A, L(4)))
+    T["eq_or_eq"] = B("||", B("==", A, L(1)), B("==", A, L(4)))
+    T["null_or_gt"] = B("||", B("==", A, L(None)), B(">", A, L(2)))
+    T["notnull_and_lt"] = B("&&", B("!=", A, L(None)), B("<", A, L(3)))
+    T["in_range"] = ["in", A, L(1), L(4)]
+    V = {"square": B("*", A, A), "self_diff": B("-", A, A), "poly": B("+", A, B("*", A, A)), "coalesce_self": B("+", B("??", A, L(0)), A),
+         "neg_minus": B("-", ["neg", A], A), "case_self": ["case", [[B(">", A, L(2)), A], [L(True), B("-", L(0), A)]]],
+         "two_cols": B("-", B("-", A, C), A)}
+    head = [{"t": "from", "src": {"k": "table", "name": "t2"}, "alias": None},
+            {"t": "select", "items": [[None, ["col", None, "id"]], [None, ["col", None, "k"]], [None, A], [None, C]]}]
+    agg = {"t": "group", "keys": [["col", None, "k"]], "pipe": [{"t": "aggregate", "items": [["a", ["agg", "max", A]], ["c", ["agg", "count", None]]]}]}
+    out = []
+    for name, e in sorted(T.items()):
+        out.append(("%s@filter" % name, {"lets": [], "main": head + [{"t": "filter", "cond": e}], "cuts": []}))
+        out.append(("%s@derive" % name, {"lets": [], "main": head + [{"t": "derive", "items": [["x", e]]}], "cuts": []}))
+        out.append(("%s@having" % name, {"lets": [], "main": head + [agg, {"t": "filter", "cond": e}], "cuts": []}))
+        out.append(("%s@join_filter" % name, {"lets": [], "main": head + [{"t": "sort", "keys": [[False, ["col", None, "id"]]]}, {"t": "take", "lo": None, "hi": 8, "plain": True}, {"t": "filter", "cond": e}], "cuts": []}))
+    for name, e in sorted(V.items()):
+        out.append(("%s@derive" % name, {"lets": [], "main": head + [{"t": "derive", "items": [["x", e]]}], "cuts": []}))
+        out.append(("%s@filter" % name, {"lets": [], "main": head + [{"t": "filter", "cond": B(">", e, L(3))}], "cuts": []}))
+        out.append(("%s@sort" % name, {"lets": [], "main": head + [{"t": "derive", "items": [["x", e]]}, {"t": "sort", "keys": [[True, ["col", None, "x"]], [False, ["col", None, "id"]]]}, {"t": "take", "lo": None, "hi": 3, "plain": True}], "cuts": []}))
+    return out
+
+
+STYLES = ["positional", "piped", "named_default", "named_given", "piped_named_given"]
+
+
+def _template_shard(seed, shard, items):
+    from . import c04
+    rng = core.shard_rng(seed, "C06t", shard)
+    w = core.Worker()
+    db = c04.MATRIX_DB
+    w.db_open("d", grel.db_stmts(db))
+    viols = []
+    obs = {"template_pairs": 0, "template_pairs_judged": 0, "template_pairs_sql_differs": 0, "template_both_deviate": 0, "template_unspecified": 0}
+    for (label, prog, style, dialect) in items:
+        try:
+            res = rw_function(rng, prog, style)
+        except Exception:
+            res = None
+        if res is None:
+            continue
+        p2, name = res
+        obs["template_pairs"] += 1
+        o = relcheck.run_case(w, prog, db, "d", dialect)
+        o2 = relcheck.run_case(w, p2, db, "d", dialect)
+        if o.status in ("unspecified", "model_error", "engine_unsupported") or o2.status in ("unspecified", "model_error", "engine_unsupported"):
+            obs["template_unspecified"] += 1
+            continue
+        bad = [x for x in o.symptoms if x[0] in ("C01", "C03", "C05", "C07")] if o.status == "judged" else []
+        sym = det = None
+        if o.status == "judged" and not bad:
+            if o2.status == "rejected":
+                sym, det = "rewritten_rejected", o2.obs.get("reject_reason", "")
+            elif o2.status in ("panic", "abort"):
+                sym, det = "rewritten_panics", str(o2.symptoms)[:200]
+            elif o2.status == "judged":
+                bad2 = [x for x in o2.symptoms if x[0] in ("C01", "C03", "C05", "C07")]
+                if bad2:
+                    sym, det = "rewritten_" + bad2[0][1], bad2[0][2]
+                obs["template_pairs_judged"] += 1
+                if o.sql != o2.sql:
+                    obs["template_pairs_sql_differs"] += 1
+        elif o.status == "judged" and bad and o2.status == "judged":
+            bad2 = [x for x in o2.symptoms if x[0] in ("C01", "C03", "C05", "C07")]
+            if not bad2:
+                sym, det = "base_" + bad[0][1], bad[0][2]
+            else:
+                obs["template_both_deviate"] += 1
+        elif o.status == "rejected" and o2.status == "judged":
+            sym, det = "base_rejected", o.obs.get("reject_reason", "")
+        if sym:
+            viols.append({"property": "C06", "symptom": sym, "shape": "%s :: function_template:%s :: %s" % (dialect, style, label),
+                          "witness": {"base": prog, "rewritten": p2, "db": db, "dialect": dialect, "rewrite": name, "template": label,
+                                      "base_prql": grel.pp_program(prog), "rewritten_prql": grel.pp_program(p2)},
+                          "detail": str(det)[:300] + " || base sql: " + (o.sql or "")[:250] + " || rewritten sql: " + (o2.sql or "")[:250]})
+    w.close()
+    return viols, obs
+
+
+def template_phase(run, tier, seed):
+    items = []
+    for label, prog in function_templates():
+        for style in STYLES:
+            for dialect in ("sqlite", "generic"):
+                if tier == "quick" and dialect == "generic" and style not in ("positional", "piped"):
+                    continue
+                items.append((label, prog, style, dialect))
+    N = core.NCPU
+    res = core.run_shards(_template_shard, [dict(seed=seed, shard=i, items=items[i::N]) for i in range(N)])
+    obs = {}
+    for v, o in res:
+        run.extend(v)
+        core.merge_counts(obs, o)
+    run.coverage["function_templates"] = dict(obs, templates=len(function_templates()), styles=len(STYLES))
+    run.coverage["evaluations"] = run.coverage.get("evaluations", 0) + obs.get("template_pairs", 0)
+
+
 def run(tier, seed):
     run = core.Run("C06", tier, seed)
     N = core.NCPU
@@ -535,6 +655,7 @@ def run(tier, seed):
     if run.violations and run.violations[0].get("witness"):
         pass
     run.coverage["samples"] = ["(see replay files for concrete pairs)", "rewrite kinds: " + ", ".join(sorted(obs.get("by_rewrite", {})))]
+    template_phase(run, tier, seed)
     return run
 
 
@@ -546,6 +667,20 @@ def replay(case):
     w.close()
     out = []
     kind = re.sub(r"@\d+", "", case["rewrite"])
+    if case.get("template"):
+        bad = [x for x in o.symptoms if x[0] in ("C01", "C03", "C05", "C07")] if o.status == "judged" else []
+        bad2 = [x for x in o2.symptoms if x[0] in ("C01", "C03", "C05", "C07")] if o2.status == "judged" else []
+        sym = None
+        if o.status == "judged" and not bad:
+            sym = "rewritten_rejected" if o2.status == "rejected" else "rewritten_panics" if o2.status in ("panic", "abort") else ("rewritten_" + bad2[0][1]) if bad2 else None
+        elif bad and o2.status == "judged" and not bad2:
+            sym = "base_" + bad[0][1]
+        elif o.status == "rejected" and o2.status == "judged":
+            sym = "base_rejected"
+        if sym:
+            out.append({"property": "C06", "symptom": sym, "shape": "%s :: function_template:%s :: %s" % (case["dialect"], kind.split(":")[-1], case["template"]),
+                        "witness": case, "detail": str((bad2 or bad or [("", "", o2.obs.get("reject_reason", ""))])[0][2])[:300]})
+        return out
     if o.status == "judged" and not o.symptoms:
         sym = None
         if o2.status == "rejected":
